@@ -248,10 +248,18 @@ func vpRunImpl(st *vpState) (out vpOutcome) {
 			out = vpOutcome{Kind: "gopanic", GoPanic: fmt.Sprint(r), HostIDs: log.ids}
 		}
 	}()
-	prog, er := DeBlobProgramCode(append([]byte(nil), st.Blob...))
+	blob := append([]byte(nil), st.Blob...)
+	prog, er := DeBlobProgramCode(blob)
 	if er != ExitContinue {
 		return vpOutcome{Kind: "deblob_reject"}
 	}
+	defer func() {
+		// the program blob belongs to the caller: loading and running it must not modify it
+		// (a write through a slice that aliases the blob would change what a second run sees)
+		if out.Kind != "gopanic" && !bytes.Equal(blob, st.Blob) {
+			out.Kind = "blob_modified_by_the_run"
+		}
+	}()
 	mem := vpImplMemory(st.Pages)
 	host := NewHost(&prog, Registers(st.Regs), mem, Gas(st.Gas), HostCallArgs{}, vpImplOmegas(st, log))
 	res := host.HostCall(ProgramCounter(st.PC), 0)
